@@ -183,3 +183,5 @@ func leftoverClass(left []world.Leftover) string {
 }
 
 func sprintf(f string, a ...any) string { return fmt.Sprintf(f, a...) }
+
+func worldCfgMods(mods ...string) world.Config { return world.Config{Modules: mods} }
